@@ -56,6 +56,11 @@ HELPERS = {
 }
 
 
+# helpers (and methods) that have been emitted in this run; a caller of a missing one is untranslatable too, so that the
+# generated file always elaborates and the errors appear at the tie theorems of DS/Props/SrcSym.lean
+AVAILABLE = set()
+
+
 class Ex:
     """expression translator; env: python name -> (lean text, type)"""
 
@@ -165,6 +170,8 @@ class Ex:
         if f in self.extra:
             return self.extra[f](args)
         if f in HELPERS:
+            if f not in AVAILABLE:
+                raise U("call of `%s`, which is itself untranslatable" % f)
             ln, want, ret = HELPERS[f]
             if ty == want:
                 return "(%s %s)" % (ln, " ".join(a[0] for a in args)), ret
@@ -178,11 +185,21 @@ def strip_doc(body):
     return [b for b in body if not (isinstance(b, ast.Expr) and isinstance(b.value, ast.Constant) and isinstance(b.value.value, str))]
 
 
-def straight(stmts, env, extra=None, allow_return=True):
-    """straight-line statements -> (list of `let` lines, final env, return (lean, type) or None)"""
+def is_fresh(node):
+    """the value is a NEW array (an arithmetic result or the result of a call other than `numpy.asarray`), so that a
+    later in-place `x[mask] = ...` cannot be seen through another name"""
+    if isinstance(node, ast.BinOp):
+        return True
+    return isinstance(node, ast.Call) and ast.unparse(node.func) != "numpy.asarray"
+
+
+def straight(stmts, env, extra=None, allow_return=True, frozen=()):
+    """straight-line statements -> (list of `let` lines, final env, return (lean, type) or None).
+    `frozen`: names that must not be assigned (they are read again outside the translated block)."""
     env = dict(env)
     lines = []
     ret = None
+    fresh = set()
     for i, s in enumerate(stmts):
         if ret is not None:
             raise U("statement after return: `%s`" % ast.unparse(s)[:60])
@@ -196,8 +213,14 @@ def straight(stmts, env, extra=None, allow_return=True):
             if e[1] not in ("S", "V", "L", "LS", "BV", "B", "ON", "K"):
                 raise U("assignment of type %s: `%s`" % (e[1], ast.unparse(s)))
             name = s.targets[0].id
+            if name in frozen:
+                raise U("assignment to `%s`, which is used outside this block" % name)
             lines.append("let %s := %s" % (name, e[0]))
             env[name] = (name, e[1])
+            if is_fresh(s.value):
+                fresh.add(name)
+            else:
+                fresh.discard(name)
             continue
         masked = None
         if isinstance(s, ast.Assign) and len(s.targets) == 1 and isinstance(s.targets[0], ast.Subscript):
@@ -207,6 +230,8 @@ def straight(stmts, env, extra=None, allow_return=True):
         if masked and isinstance(masked[0].value, ast.Name) and env.get(masked[0].value.id, ("", ""))[1] == "V":
             tgt, val, aug = masked
             name = tgt.value.id
+            if name not in fresh or name in frozen:
+                raise U("in-place assignment `%s` to an array that may be visible under another name" % ast.unparse(tgt))
             m = Ex(env, extra=extra).tx(tgt.slice)
             if m[1] != "BV":
                 raise U("index of `%s` is not a boolean mask" % ast.unparse(tgt))
@@ -228,6 +253,24 @@ def emit(name, params, rettype, lines, result, doc):
     out += ["  " + ln for ln in lines]
     out.append("  " + result)
     return "\n".join(out) + "\n\n"
+
+
+def unique_def(body, name, kind=ast.FunctionDef):
+    """the one definition of `name` in `body`; none, several, or a later rebinding of the name -> Untranslatable"""
+    defs = [n for n in body if isinstance(n, (ast.FunctionDef, ast.AsyncFunctionDef, ast.ClassDef)) and n.name == name]
+    for n in body:
+        tg = []
+        if isinstance(n, ast.Assign):
+            tg = n.targets
+        elif isinstance(n, (ast.AugAssign, ast.AnnAssign)):
+            tg = [n.target]
+        if any(isinstance(t, ast.Name) and t.id == name for t in tg):
+            raise U("`%s` is rebound by an assignment" % name)
+    if len(defs) != 1 or not isinstance(defs[0], kind):
+        raise U("`%s`: %d definitions" % (name, len(defs)))
+    if defs[0].decorator_list:
+        raise U("`%s` is decorated" % name)
+    return defs[0]
 
 
 def argnames(fn):
@@ -260,7 +303,7 @@ def tr_simple(out, info, fn, name, lean_name, params, types, ret, doc, env_extra
     """one straight-line function with fixed parameter names/types"""
     try:
         if fn is None:
-            raise U("%s not found" % name)
+            raise U("%s not found, or defined more than once" % name)
         names, defaults = argnames(fn)
         if names != params:
             raise U("%s: parameters %r" % (name, names))
@@ -295,11 +338,12 @@ def translate(report):
         raise U("cannot read the source: %s" % e)
     out = []
     facts = {}
+    AVAILABLE.clear()
 
     # ---- SymOp.__call__ ---------------------------------------------------------------------------------------
     try:
-        c = pysrc.find_class(t_sg, "SymOp")
-        fn = pysrc.find_func(c.body, "__call__")
+        c = unique_def(t_sg.body, "SymOp", ast.ClassDef)
+        fn = unique_def(c.body, "__call__")
     except pysrc.Untranslatable:
         fn = None
     r = tr_simple(out, info, fn, "SymOp.__call__", "symopCall", ["self", "vec"], [None, "V"], "V", "",
@@ -309,25 +353,25 @@ def translate(report):
         out.append(emit("symopCall", "(self : SymOp α) (vec : V3 α)", "V3 α", lines, res[0], "`SymOp.__call__(self, vec)`"))
         info["methods"]["symopCall"] = True
     try:
-        c = pysrc.find_class(t_sg, "SymOp")
-        ini = pysrc.find_func(c.body, "__init__")
-        facts["SymOp.__init__"] = "; ".join(ast.unparse(s) for s in strip_doc(ini.body)) if ini else "?"
-        sgc = pysrc.find_class(t_sg, "SpaceGroup")
-        it = pysrc.find_func(sgc.body, "iter_symops")
-        facts["SpaceGroup.iter_symops"] = "; ".join(ast.unparse(s) for s in strip_doc(it.body)) if it else "?"
+        c = unique_def(t_sg.body, "SymOp", ast.ClassDef)
+        ini = unique_def(c.body, "__init__")
+        facts["SymOp.__init__"] = "; ".join(ast.unparse(s) for s in strip_doc(ini.body))
+        sgc = unique_def(t_sg.body, "SpaceGroup", ast.ClassDef)
+        it = unique_def(sgc.body, "iter_symops")
+        facts["SpaceGroup.iter_symops"] = "; ".join(ast.unparse(s) for s in strip_doc(it.body))
     except pysrc.Untranslatable as e:
         facts["SpaceGroup.iter_symops"] = "? %s" % e
 
     # ---- _Position2Tuple ----------------------------------------------------------------------------------------
     try:
-        p2t = pysrc.find_class(t_su, "_Position2Tuple")
+        p2t = unique_def(t_su.body, "_Position2Tuple", ast.ClassDef)
     except pysrc.Untranslatable:
         p2t = None
     # __init__: `if eps is None: eps = epsilon` (text) ; the two round-off statements (translated) ; the small-eps guard (text)
     try:
-        fn = p2t and pysrc.find_func(p2t.body, "__init__")
-        if fn is None:
-            raise U("_Position2Tuple.__init__ not found")
+        if p2t is None:
+            raise U("class _Position2Tuple not found (or defined more than once)")
+        fn = unique_def(p2t.body, "__init__")
         names, defaults = argnames(fn)
         if names != ["self", "eps"] or defaults != ["None"]:
             raise U("_Position2Tuple.__init__: signature %r %r" % (names, defaults))
@@ -359,9 +403,9 @@ def translate(report):
         out.append("def pos2tupleInit_untranslatable : String := %s\n\n" % pysrc.lean_str(str(e)))
     # __call__: eps == 0 branch as text, the integer branch translated
     try:
-        fn = p2t and pysrc.find_func(p2t.body, "__call__")
-        if fn is None:
-            raise U("_Position2Tuple.__call__ not found")
+        if p2t is None:
+            raise U("class _Position2Tuple not found (or defined more than once)")
+        fn = unique_def(p2t.body, "__call__")
         names, defaults = argnames(fn)
         if names != ["self", "xyz"] or defaults:
             raise U("_Position2Tuple.__call__: signature %r" % names)
@@ -385,17 +429,20 @@ def translate(report):
             ("positionDifference", ["xyz0", "xyz1"], ["V", "V"], "V", "V3 α"),
             ("nearestSiteIndex", ["sites", "xyz"], ["L", "V"], "ON", "Option Nat"),
             ("equalPositions", ["xyz0", "xyz1", "eps"], ["V", "V", "S"], "B", "Bool")):
-        r = tr_simple(out, info, pysrc.find_func(t_su.body, name), name, name, params, types, ret, "")
+        try:
+            fdef = unique_def(t_su.body, name)
+        except pysrc.Untranslatable:
+            fdef = None
+        r = tr_simple(out, info, fdef, name, name, params, types, ret, "")
         if r:
             lines, res, ps = r
             out.append(emit(name, ps, rt, lines, res[0], "`%s(%s)`" % (name, ", ".join(params))))
             info["methods"][name] = True
+            AVAILABLE.add(name)
 
     # ---- expandPosition ----------------------------------------------------------------------------------------------
     try:
-        fn = pysrc.find_func(t_su.body, "expandPosition")
-        if fn is None:
-            raise U("expandPosition not found")
+        fn = unique_def(t_su.body, "expandPosition")
         names, defaults = argnames(fn)
         if names != ["spacegroup", "xyz", "sgoffset", "eps"] or defaults != ["[0, 0, 0]", "None"]:
             raise U("expandPosition: signature %r %r" % (names, defaults))
@@ -427,16 +474,18 @@ def translate(report):
             raise U("expandPosition: loop body does not end with `tpl = ...; if ...: ...; site_symops[tpl].append(symop)`")
 
         def call_symop(args):
+            if "symopCall" not in info["methods"]:
+                raise U("call of `SymOp.__call__`, which is itself untranslatable")
             if [a[1] for a in args] != ["V"]:
                 raise U("symop(...) argument")
             return "(symopCall symop %s)" % args[0][0], "V"
 
         env = {"xyz": ("xyz", "V"), "sgoffset": ("sgoffset", "V"), "eps": ("eps", "S")}
-        lines, env2, _ = straight(body[:k], env, extra={"symop": call_symop}, allow_return=False)
+        lines, env2, _ = straight(body[:k], env, extra={"symop": call_symop}, allow_return=False,
+                                  frozen=("xyz", "sgoffset", "eps", "spacegroup", "symop", "tpl", "positions", "site_symops",
+                                          "pos2tuple", "nearpos", "pos_is_new"))
         if env2.get("pos", ("", ""))[1] != "V":
             raise U("expandPosition: `pos` is not an array after the numeric prefix")
-        if any(n in env2 for n in ("tpl", "positions", "site_symops", "symop", "pos2tuple", "nearpos", "pos_is_new")):
-            raise U("expandPosition: numeric prefix assigns a loop variable")
         out.append(emit("image", "(symop : SymOp α) (xyz sgoffset : V3 α) (eps : α)", "V3 α", lines, "pos",
                         "the statements of the loop body of `expandPosition` before `tpl = pos2tuple(pos)`: the value of `pos`"))
         info["methods"]["image"] = True
@@ -468,6 +517,9 @@ def translate(report):
         expect(ife.body[0], "site_symops[tpl] = site_symops[pos2tuple(nearpos)]", "expandPosition loop")
         expect(ife.body[1], "pos_is_new = False", "expandPosition loop")
         expect(ifn, "if pos_is_new:\n    positions.append(pos)", "expandPosition loop")
+        for need in ("pos2tupleInit", "pos2tupleCall"):
+            if need not in info["methods"]:
+                raise U("expandPosition uses `_Position2Tuple`, whose %s is untranslatable" % need)
         out.append(
             "/-- one iteration of `for symop in spacegroup.iter_symops()`; `none` = an exception.  Skeleton (verified as text):\n"
             + "".join("    %s\n" % s for s in LOOP_SKELETON) + "-/\n"
